@@ -44,7 +44,53 @@ def mem_campaigns(mode="oracle", quick_cases=1500, thorough_cases=60000, maxops_
     }
 
 
+def mem_algo_campaigns():
+    return {
+        "quick": [{"name": "mem-algo-random", "args": ["mode=algo", "cases=2500", "maxops=60"]}],
+        "thorough": [{"name": "mem-algo-random", "args": ["mode=algo", "cases=60000", "maxops=120"]}],
+    }
+
+
 PROPS = {
+    "C14": {
+        "domain": "mem",
+        "proof_module": "FoyerProofs.C14",
+        "theorems": [
+            "Foyer.C14.fifo_lawful", "Foyer.C14.lru_lawful", "Foyer.C14.sieve_lawful", "Foyer.C14.s3fifo_lawful",
+            "Foyer.C14.lfu_lawful", "Foyer.C14.fifo_evicts_in_insertion_order", "Foyer.C14.lru_never_pops_pinned",
+            "Foyer.C14.lru_low_before_high", "Foyer.C14.lru_high_pool_bounded", "Foyer.C14.sieve_victim_unvisited",
+            "Foyer.C14.s3fifo_evict_total", "Foyer.C14.s3fifo_push_rule", "Foyer.C14.lfu_pop_rule",
+        ],
+        "monitor_props": ["C14"],
+        # in algorithm mode the model *is* the documented algorithm: a different victim sequence is a failure
+        "reject_is_fail_fields": ["leaves", "victims", "has", "usage", "entries"],
+        "campaigns": mem_algo_campaigns(),
+        "nontrivial": r"leaves=[^ ]*evict",
+        "rule": "single shard, identity hasher, algorithm mode: the Lean model of the configured algorithm (FIFO, LRU with "
+                "several pool ratios, SIEVE, S3-FIFO with several small/ghost ratios and thresholds, w-TinyLFU with several "
+                "window/protected ratios and the exact count-min sketch) predicts every victim; random op sequences "
+                "(insert with weights and hints, get, hold/release, touch, remove, resize, clear); non-trivial = at least "
+                "one eviction; distinct = distinct (cfg, op sequence)",
+        "trusted_base": TB_COMMON + ["MurmurHash3/count-min port FoyerModel/Murmur.lean (validated by the correspondence only)"],
+        "assumptions": MEM_ASSUME,
+    },
+    "C13": {
+        "domain": "mem",
+        "proof_module": "FoyerProofs.C13",
+        "theorems": [
+            "Foyer.C13.conservation", "Foyer.C13.conservation_from", "Foyer.C13.exactly_once", "Foyer.C13.admitted_ids",
+            "Foyer.C13.pipe_iff_evict", "Foyer.C13.reason_correct", "Foyer.step_conservation",
+            "Foyer.fifo_lawful", "Foyer.oracle_lawful",
+        ],
+        "monitor_props": ["C13"],
+        "campaigns": mem_campaigns("oracle"),
+        "nontrivial": r"leaves=[^- ]",
+        "rule": "same generator as C05 (random op sequences over insert/replace/remove/get/hold/drop/clear/resize/evict_all/"
+                "flush, incl. disk-only inserts, 5 algorithms, shards 1..4) with an EventListener and a recording Pipe on the "
+                "real Cache; non-trivial = at least one leave notification; distinct = distinct (cfg, op sequence)",
+        "trusted_base": TB_COMMON,
+        "assumptions": MEM_ASSUME + ["multi-threaded leave/hand-off multiset check is part of the C02 concurrent campaign"],
+    },
     "C05": {
         "domain": "mem",
         "proof_module": "FoyerProofs.C05",
@@ -65,3 +111,27 @@ PROPS = {
         "assumptions": MEM_ASSUME,
     },
 }
+
+MEM_NOTE = ("trusted: Lean kernel; axioms propext/Classical.choice/Quot.sound; the Rust harness + Lean driver parser; "
+            "modelled, not verified: one API call = one atomic step (shard lock), unsafe intrusive lists, hashbrown, parking_lot")
+MEM_TECH = "Lean 4 proof (invariants by induction over operation lists, for any lawful eviction policy) + trace-validating correspondence against the real Cache"
+
+# what MANIFEST.json says per claimed property
+CLAIMS = {
+    "C05": {"text": "Lean 4 theorems about an executable model of the memory shard, for every operation sequence, weight, "
+                    "capacity, shard count, hasher and lawful eviction policy (all five algorithms are proved lawful): usage/entries "
+                    "exact, capacities sum, evictions necessary and sufficient, clear/resize bounds, no unwrap reachable; tied to "
+                    "/repo on every run by validating traces of the real Cache against the model and by independent monitors",
+            "note": MEM_NOTE, "technique": MEM_TECH},
+    "C13": {"text": "Lean 4 theorems: multiset conservation (admitted = findable + left, hence exactly one leave notification and "
+                    "none while findable), reason matches cause, hand-off iff evicted — for every operation sequence and lawful "
+                    "policy; tied to /repo by trace validation with an EventListener and a recording Pipe on the real Cache",
+            "note": MEM_NOTE, "technique": MEM_TECH},
+    "C14": {"text": "Lean 4 models of FIFO, LRU, SIEVE, S3-FIFO and w-TinyLFU (incl. exact count-min/Murmur port) proved to obey "
+                    "the Eviction contract, plus the rules the property names (FIFO order, LRU low-before-high / never pops "
+                    "pinned / pool bound, SIEVE victim unvisited, S3-FIFO eviction total, TinyLFU sketch comparison); the models "
+                    "predict every victim of the real Cache in algorithm-mode correspondence",
+            "note": MEM_NOTE + "; determinism is definitional (the models are functions)", "technique":
+                "Lean 4 proof (lawfulness via permutation laws, per-algorithm rules) + victim-by-victim correspondence"},
+}
+NOT_CLAIMED = {}
